@@ -3,7 +3,7 @@
    type (Model/InputTyping.v). *)
 From Coq Require Import ZArith List String Bool Lia.
 From TV Require Import Proofs.ValidateValues.
-From TV Require Import Py.Prelude Model.Schema Model.ImplInput Model.SpecInput Model.SpecLiteral
+From TV Require Import Py.Prelude Model.Schema Model.ScalarSpec Model.ImplInput Model.SpecInput Model.SpecLiteral
      Proofs.InputRefine Proofs.ValidateProofs Proofs.LiteralRefine.
 From TV Require Import Model.ImplValidate Model.SpecArgs Proofs.ArgsRefine.
 From TV Require Import Model.InputTyping.
@@ -19,10 +19,26 @@ Notation has_type := (has_type sch leaf).
 (* what is assumed of the scalars: their coercion functions return internal values the leaf
    predicate accepts (or "invalid"), never None for a non-null input *)
 Hypothesis leaf_input : forall n ops v r, scalars sch n = Some ops -> s_input ops v = Ok r -> is_undef r = false -> leaf n r = true.
-Hypothesis leaf_literal : forall n ops a r, scalars sch n = Some ops -> s_literal ops a = Ok r -> is_undef r = false -> leaf n r = true.
+Hypothesis leaf_literal : forall n ops a r, scalars sch n = Some ops -> wf_node a = true -> s_literal ops a = Ok r -> is_undef r = false -> leaf n r = true.
 Hypothesis leaf_not_none : forall n, leaf n PNone = false.
 (* input object field names are unique (a checked schema rule) *)
 Hypothesis input_fields_unique : forall n fields, find_type sch n = Some (DInput fields) -> NoDup (map in_name fields).
+(* the defaults written in the schema are well-formed AST values (what the SDL parser builds) *)
+Hypothesis defaults_wf : forall n fields f d, find_type sch n = Some (DInput fields) -> In f fields -> in_default f = Some d -> wf_lit d = true.
+
+Lemma wf_lit_list lo items : wf_lit (LList lo items) = forallb wf_lit items.
+Proof. cbn [wf_lit]. induction items as [|x r IH]; [reflexivity|]. cbn [forallb]. now rewrite IH. Qed.
+Lemma wf_lit_obj lo fs : wf_lit (LObj lo fs) = forallb (fun kv => wf_lit (snd kv)) fs.
+Proof. cbn [wf_lit]. induction fs as [|[k x] r IH]; [reflexivity|]. cbn [forallb snd]. now rewrite IH. Qed.
+Lemma wf_lit_node l : wf_lit l = true -> wf_node (node_of_lit l) = true.
+Proof. destruct l as [lo x|lo v|lo v|lo s|lo b|lo|lo s|lo items|lo fnodes]; try reflexivity; destruct v; cbn; congruence. Qed.
+Lemma lit_obj_get_wf k fs node : forallb (fun kv => wf_lit (snd kv)) fs = true -> lit_obj_get k fs = Some node -> wf_lit node = true.
+Proof.
+  induction fs as [|[k' x] r IH]; intros Hw Hg; [discriminate|]. cbn [forallb snd] in Hw. apply andb_true_iff in Hw.
+  destruct Hw as [Hx Hr]. cbn [lit_obj_get] in Hg. destruct (lit_obj_get k r) as [later|] eqn:E.
+  - injection Hg as <-. now apply IH.
+  - destruct (String.eqb k k'); [now injection Hg as <-|discriminate].
+Qed.
 
 (* ---------- unfolding ---------- *)
 Lemma has_type_nonnull v t : has_type v (TNonNull t) = negb (is_none v) && has_type v t.
@@ -57,7 +73,7 @@ Definition not_null_lit (l : lit) : bool := match l with LNull _ => false | _ =>
 Definition lit_sound_at (fuel : nat) (t : ty) : Prop :=
   forall vs nn l r,
     spec_literal sch fuel t vs nn l = Ok r -> is_undef r = false ->
-    lit_vars_typed sch leaf fuel vs t l = true ->
+    lit_vars_typed sch leaf fuel vs t l = true -> wf_lit l = true ->
     (nn = true -> not_null_lit l = true) ->
     has_type r (pos nn t) = true.
 
@@ -107,14 +123,14 @@ Qed.
 (* wrappers: given the named level at this fuel *)
 Lemma lit_sound_types fuel : (forall n, lit_sound_at fuel (TNamed n)) -> forall t, lit_sound_at fuel t.
 Proof.
-  intros Hnamed t. induction t as [n|t IH|t IH]; [apply Hnamed| |]; intros vs nn l r Hs Hu Hv Hnn.
+  intros Hnamed t. induction t as [n|t IH|t IH]; [apply Hnamed| |]; intros vs nn l r Hs Hu Hv Hw Hnn.
   - (* list *)
     rewrite spec_literal_list in Hs. rewrite lvt_list in Hv.
     destruct l as [lo x|lo v|lo v|lo s|lo b|lo|lo s|lo items|lo fnodes];
       try (destruct (spec_literal sch fuel t vs false _) as [v0|e] eqn:Hi; cbn [bind] in Hs; [|discriminate];
            destruct (is_undef v0) eqn:Hu0; injection Hs as <-; [discriminate|];
            apply pos_intro; [|reflexivity]; rewrite has_type_list; unfold all_items; cbn [forallb]; rewrite andb_true_r;
-           exact (IH vs false _ v0 Hi Hu0 Hv (fun H => ltac:(discriminate)))).
+           exact (IH vs false _ v0 Hi Hu0 Hv Hw (fun H => ltac:(discriminate)))).
     + injection Hs as <-. eapply var_value_typed; eauto.
     + injection Hs as <-. destruct nn; [specialize (Hnn eq_refl); discriminate|reflexivity].
     + destruct (map_res _ items) as [rs|e] eqn:Hm; cbn [bind] in Hs; [|discriminate].
@@ -123,13 +139,14 @@ Proof.
       apply (items_sound _ t items rs Hm Hd). intros it r Hin Hf Hur.
       destruct (is_missing_variable it vs).
       * destruct (is_non_null t) eqn:Hnnt; injection Hf as <-; [discriminate|]. now apply has_type_none.
-      * rewrite forallb_forall in Hv. exact (IH vs false it r Hf Hur (Hv it Hin) (fun H => ltac:(discriminate))).
+      * rewrite forallb_forall in Hv. rewrite wf_lit_list, forallb_forall in Hw.
+        exact (IH vs false it r Hf Hur (Hv it Hin) (Hw it Hin) (fun H => ltac:(discriminate))).
   - (* non-null *)
     rewrite spec_literal_nonnull in Hs. rewrite lvt_nonnull in Hv.
     assert (Hgo : spec_literal sch fuel t vs true l = Ok r /\ not_null_lit l = true).
     { destruct l; try (split; [exact Hs|reflexivity]). injection Hs as <-. discriminate. }
     destruct Hgo as [Hgo Hl].
-    pose proof (IH vs true l r Hgo Hu Hv (fun _ => Hl)) as H. cbn [pos] in H.
+    pose proof (IH vs true l r Hgo Hu Hv Hw (fun _ => Hl)) as H. cbn [pos] in H.
     apply pos_intro; [exact H|]. intros _. rewrite has_type_nonnull in H. apply andb_true_iff in H. destruct H as [H _].
     now apply negb_true_iff in H.
 Qed.
@@ -220,13 +237,14 @@ Qed.
 (* ---------- the named level, one unit of fuel more ---------- *)
 Lemma lit_sound_named fuel : (forall t, lit_sound_at fuel t) -> forall n, lit_sound_at (S fuel) (TNamed n).
 Proof.
-  intros IH n vs nn l r Hs Hu Hv Hnn. cbn [spec_literal] in Hs. cbn [lit_vars_typed] in Hv.
+  intros IH n vs nn l r Hs Hu Hv Hw Hnn. cbn [spec_literal] in Hs. cbn [lit_vars_typed] in Hv.
+  pose proof (wf_lit_node l Hw) as Hwn.
   destruct (find_type sch n) as [[ |values|fields|ifs fs|fs|ms]|] eqn:Hn; try discriminate.
   - (* scalar *)
     destruct (scalars sch n) as [ops|] eqn:Hops; [|discriminate].
     destruct l as [lo x|lo v|lo v|lo s|lo b|lo|lo s|lo items|lo fnodes];
       try (destruct (s_literal ops _) as [r0|e] eqn:Hl; cbv beta iota in Hs; [injection Hs as <-|destruct e; try discriminate; injection Hs as <-; discriminate];
-           pose proof (leaf_literal n ops _ r0 Hops Hl Hu) as Hleaf;
+           pose proof (leaf_literal n ops _ r0 Hops Hwn Hl Hu) as Hleaf;
            assert (Hnone : is_none r0 = false) by (destruct r0; try reflexivity; rewrite leaf_not_none in Hleaf; discriminate);
            apply pos_intro; [now rewrite (has_type_scalar r0 n Hn Hnone)|intros _; exact Hnone]).
     + injection Hs as <-. eapply var_value_typed; eauto.
@@ -248,18 +266,20 @@ Proof.
       apply (fields_outcomes _ fields rs Hm). intros f o Hfin Hf. split; [reflexivity|]. cbn [snd].
       rewrite forallb_forall in Hv. specialize (Hv f Hfin). apply andb_true_iff in Hv. destruct Hv as [Hvn Hvd].
       unfold spec_obj_field in Hf.
-      assert (Hcase : forall node, lit_vars_typed sch leaf fuel vs (in_type f) node = true ->
+      assert (Hcase : forall node, lit_vars_typed sch leaf fuel vs (in_type f) node = true -> wf_lit node = true ->
                 bind (spec_literal sch fuel (in_type f) vs false node) (fun v => Ok (FVal v)) = Ok o ->
                 match o with FSkip => is_non_null (in_type f) = false | FInvalid => True
                         | FVal v => is_undef v = false -> has_type v (in_type f) = true end).
-      { intros node Hvt Hb. destruct (spec_literal sch fuel (in_type f) vs false node) as [v|e] eqn:Hl; cbn [bind] in Hb; [|discriminate].
-        injection Hb as <-. intros Huv. exact (IH (in_type f) vs false node v Hl Huv Hvt (fun H => ltac:(discriminate))). }
-      destruct (lit_obj_get (in_name f) fnodes) as [node|].
-      * destruct (is_missing_variable node vs).
-        -- destruct (in_default f) as [d|]; [now apply (Hcase d)|].
+      { intros node Hvt Hwf Hb. destruct (spec_literal sch fuel (in_type f) vs false node) as [v|e] eqn:Hl; cbn [bind] in Hb; [|discriminate].
+        injection Hb as <-. intros Huv. exact (IH (in_type f) vs false node v Hl Huv Hvt Hwf (fun H => ltac:(discriminate))). }
+      rewrite wf_lit_obj in Hw.
+      destruct (lit_obj_get (in_name f) fnodes) as [node|] eqn:Hget.
+      * pose proof (lit_obj_get_wf _ _ _ Hw Hget) as Hwnode.
+        destruct (is_missing_variable node vs).
+        -- destruct (in_default f) as [d|] eqn:Hd; [now apply (Hcase d Hvd (defaults_wf n fields f d Hn Hfin Hd))|].
            destruct (is_non_null (in_type f)) eqn:E; injection Hf as <-; [exact I|reflexivity].
         -- now apply (Hcase node).
-      * destruct (in_default f) as [d|]; [now apply (Hcase d)|].
+      * destruct (in_default f) as [d|] eqn:Hd; [now apply (Hcase d Hvd (defaults_wf n fields f d Hn Hfin Hd))|].
         destruct (is_non_null (in_type f)) eqn:E; injection Hf as <-; [exact I|reflexivity].
 Qed.
 
@@ -410,7 +430,8 @@ Proof.
       * rewrite literal_coercer_refines_spec in Hf.
         destruct (spec_literal sch fuel (in_type f) [] false d) as [dv|e] eqn:Hl; cbn [bind] in Hf; [|discriminate].
         destruct (is_undef dv) eqn:Hu; injection Hf as <-; cbn [snd fst]; [discriminate|]. intros _.
-        exact (literal_sound fuel (in_type f) [] false d dv Hl Hu (lvt_nil fuel d (in_type f)) (fun H => ltac:(discriminate))).
+        exact (literal_sound fuel (in_type f) [] false d dv Hl Hu (lvt_nil fuel d (in_type f))
+                             (defaults_wf n fields f d Hn Hfin Hd) (fun H => ltac:(discriminate))).
       * destruct (is_non_null (in_type f)) eqn:E; injection Hf as <-; [cbn [snd]; discriminate|reflexivity].
 Qed.
 
@@ -424,14 +445,16 @@ Qed.
 (* ---------- coerced variables are values of their declared types ---------- *)
 Theorem variables_typed fuel : forall vds raw vals errs,
   spec_coerce_variables sch fuel vds raw = Ok (vals, errs) ->
+  (forall vd d, In vd vds -> v_default vd = Some d -> wf_lit d = true) ->
   forall x v, In (x, v) vals -> exists vd, In vd vds /\ v_name vd = x /\ has_type v (v_type vd) = true.
 Proof.
-  induction vds as [|vd vds IH]; intros raw vals errs Hs x v Hin; cbn [spec_coerce_variables] in Hs.
+  induction vds as [|vd vds IH]; intros raw vals errs Hs Hwd x v Hin; cbn [spec_coerce_variables] in Hs.
   - injection Hs as <- <-. contradiction.
   - destruct (spec_variable sch fuel vd raw) as [o|e] eqn:Hv; cbn [bind] in Hs; [|discriminate].
     destruct (spec_coerce_variables sch fuel vds raw) as [[vals' errs']|e] eqn:Hr; cbn [bind] in Hs; [|discriminate].
     assert (Hrest : In (x, v) vals' -> exists vd0, In vd0 (vd :: vds) /\ v_name vd0 = x /\ has_type v (v_type vd0) = true).
-    { intros H. destruct (IH raw vals' errs' Hr x v H) as [vd0 [H1 H2]]. exists vd0. split; [now right|exact H2]. }
+    { intros H. destruct (IH raw vals' errs' Hr (fun a d Ha => Hwd a d (or_intror Ha)) x v H) as [vd0 [H1 H2]].
+      exists vd0. split; [now right|exact H2]. }
     destruct o as [[cv ce]|]; [|injection Hs as <- <-; auto].
     destruct ce as [|e0 ce]; injection Hs as <- <-; [|auto].
     destruct Hin as [Heq|Hin]; [|auto]. injection Heq as <- <-.
@@ -441,11 +464,12 @@ Proof.
     + destruct (is_none value && is_non_null (v_type vd)); [discriminate|].
       destruct (spec_coerce sch fuel (v_type vd) [] value) as [r|e] eqn:Hc; cbn [bind] in Hv; [|discriminate].
       injection Hv as ->. exact (proj1 (input_sound fuel (v_type vd) [] value cv Hc)).
-    + destruct (v_default vd) as [d|].
+    + destruct (v_default vd) as [d|] eqn:Hdef.
       * rewrite literal_coercer_refines_spec in Hv.
         destruct (spec_literal sch fuel (v_type vd) [] false d) as [dv|e] eqn:Hl; cbn [bind] in Hv; [|discriminate].
         destruct (is_undef dv) eqn:Hu; [discriminate|]. injection Hv as <-.
-        exact (literal_sound fuel (v_type vd) [] false d dv Hl Hu (lvt_nil fuel d (v_type vd)) (fun H => ltac:(discriminate))).
+        exact (literal_sound fuel (v_type vd) [] false d dv Hl Hu (lvt_nil fuel d (v_type vd))
+                             (Hwd vd d (or_introl eq_refl) Hdef) (fun H => ltac:(discriminate))).
       * destruct (is_non_null (v_type vd)); discriminate.
 Qed.
 
@@ -507,25 +531,28 @@ Definition arg_vars_typed (fuel : nat) (ad : input_def) (anode : option argument
   | None => True
   end.
 
+Definition arg_lit_wf (anode : option argument) : bool :=
+  match anode with Some a => wf_lit (a_value a) | None => true end.
+
 Theorem argument_typed fuel ad anode vs w :
   spec_argument (spec_coerce_literal sch fuel vs) ad anode vs = Ok (SValue w) ->
-  arg_vars_typed fuel ad anode vs ->
-  (forall d, in_default ad = Some d -> lit_vars_typed sch leaf fuel vs (in_type ad) d = true) ->
+  arg_vars_typed fuel ad anode vs -> arg_lit_wf anode = true ->
+  (forall d, in_default ad = Some d -> lit_vars_typed sch leaf fuel vs (in_type ad) d = true /\ wf_lit d = true) ->
   has_type w (in_type ad) = true.
 Proof.
-  intros Hs Hvars Hdef.
-  assert (Hlit : forall node, lit_vars_typed sch leaf fuel vs (in_type ad) node = true ->
+  intros Hs Hvars Hwf Hdef.
+  assert (Hlit : forall node, lit_vars_typed sch leaf fuel vs (in_type ad) node = true -> wf_lit node = true ->
             bind (spec_coerce_literal sch fuel vs (in_type ad) node)
                  (fun r => match r with Some v => Ok (SValue v) | None => Ok SFieldError end) = Ok (SValue w) ->
             has_type w (in_type ad) = true).
-  { intros node Hvt Hb. unfold spec_coerce_literal in Hb.
+  { intros node Hvt Hwn Hb. unfold spec_coerce_literal in Hb.
     destruct (spec_literal sch fuel (in_type ad) vs false node) as [v|e] eqn:Hl; cbn [bind] in Hb; [|discriminate].
     destruct (is_undef v) eqn:Hu; cbn [bind] in Hb; [discriminate|]. injection Hb as <-.
-    exact (literal_sound fuel (in_type ad) vs false node v Hl Hu Hvt (fun H => ltac:(discriminate))). }
-  unfold spec_argument in Hs. unfold arg_vars_typed in Hvars.
+    exact (literal_sound fuel (in_type ad) vs false node v Hl Hu Hvt Hwn (fun H => ltac:(discriminate))). }
+  unfold spec_argument in Hs. unfold arg_vars_typed in Hvars. unfold arg_lit_wf in Hwf.
   destruct anode as [a|].
   - destruct (a_value a) as [lo x|lo v|lo v|lo s|lo b|lo|lo s|lo items|lo fnodes] eqn:Ea;
-      try (destruct (is_non_null (in_type ad) && _); [discriminate|]; now apply (Hlit _ Hvars)).
+      try (destruct (is_non_null (in_type ad) && _); [discriminate|]; now apply (Hlit _ Hvars Hwf)).
     + (* a variable *)
       destruct (dict_get x vs) as [v|] eqn:Ev.
       * destruct (is_non_null (in_type ad) && _) eqn:Hg; [discriminate|].
@@ -534,45 +561,45 @@ Proof.
         destruct (in_type ad) as [n|t|inner] eqn:Et; cbn [nullable] in Hvars; try exact Hvars.
         cbn [is_non_null negb orb andb] in Hg.
         apply has_type_nonnull_intro; [|exact Hvars]. destruct v; try reflexivity. discriminate.
-      * destruct (in_default ad) as [d|] eqn:Hd; [now apply (Hlit d (Hdef d eq_refl))|].
+      * destruct (in_default ad) as [d|] eqn:Hd; [destruct (Hdef d eq_refl) as [H1 H2]; now apply (Hlit d H1 H2)|].
         destruct (is_non_null (in_type ad) && _); discriminate.
     + (* null *)
       destruct (is_non_null (in_type ad)) eqn:Hnn; cbn [andb negb orb] in Hs; [discriminate|]. injection Hs as <-.
       now apply has_type_none.
-  - destruct (in_default ad) as [d|] eqn:Hd; [now apply (Hlit d (Hdef d eq_refl))|].
+  - destruct (in_default ad) as [d|] eqn:Hd; [destruct (Hdef d eq_refl) as [H1 H2]; now apply (Hlit d H1 H2)|].
     destruct (is_non_null (in_type ad) && _); discriminate.
 Qed.
 
 (* ... for the implementation model: what argument_coercer hands to the resolver *)
 Theorem delivered_argument_typed fuel ad floc anode vs w :
   argument_coercer sch fuel ad floc anode vs = Ok (AVal w) ->
-  arg_vars_typed fuel ad anode vs ->
-  (forall d, in_default ad = Some d -> lit_vars_typed sch leaf fuel vs (in_type ad) d = true) ->
+  arg_vars_typed fuel ad anode vs -> arg_lit_wf anode = true ->
+  (forall d, in_default ad = Some d -> lit_vars_typed sch leaf fuel vs (in_type ad) d = true /\ wf_lit d = true) ->
   has_type w (in_type ad) = true.
 Proof.
-  intros Hi Hvars Hdef.
+  intros Hi Hvars Hwf Hdef.
   pose proof (argument_coercer_refines_spec sch fuel ad floc anode vs) as Hr. rewrite Hi in Hr.
   destruct (spec_argument (spec_coerce_literal sch fuel vs) ad anode vs) as [[|w'|]|e] eqn:Hs; cbn in Hr; try contradiction.
-  subst w'. exact (argument_typed fuel ad anode vs w Hs Hvars Hdef).
+  subst w'. exact (argument_typed fuel ad anode vs w Hs Hvars Hwf Hdef).
 Qed.
 
 (* a variable that is directly the value of an argument and passes the variable-usage rule *)
 Theorem direct_variable_delivers_declared_type fuel ad floc a vs lo x vd w :
   a_value a = LVar lo x -> usage_ok ad vd = true ->
   (forall v, dict_get x vs = Some v -> is_undef v = false -> has_type v (v_type vd) = true) ->
-  (forall d, in_default ad = Some d -> lit_vars_typed sch leaf fuel vs (in_type ad) d = true) ->
+  (forall d, in_default ad = Some d -> lit_vars_typed sch leaf fuel vs (in_type ad) d = true /\ wf_lit d = true) ->
   argument_coercer sch fuel ad floc (Some a) vs = Ok (AVal w) ->
   has_type w (in_type ad) = true.
 Proof.
-  intros Ha Hu Hv Hdef Hi. apply (delivered_argument_typed fuel ad floc (Some a) vs w Hi); [|exact Hdef].
+  intros Ha Hu Hv Hdef Hi. apply (delivered_argument_typed fuel ad floc (Some a) vs w Hi); [|cbn [arg_lit_wf]; now rewrite Ha|exact Hdef].
   unfold arg_vars_typed. rewrite Ha. intros v Hg Hnu. apply (usage_ok_typed ad vd v Hu). now apply Hv.
 Qed.
 
 (* the whole argument dictionary *)
 Theorem delivered_arguments_typed fuel floc anodes vs : forall ads vals errs,
   coerce_arguments_aux sch fuel ads floc anodes vs = Ok (vals, errs) ->
-  (forall ad, In ad ads -> arg_vars_typed fuel ad (find_arg (in_name ad) anodes) vs) ->
-  (forall ad d, In ad ads -> in_default ad = Some d -> lit_vars_typed sch leaf fuel vs (in_type ad) d = true) ->
+  (forall ad, In ad ads -> arg_vars_typed fuel ad (find_arg (in_name ad) anodes) vs /\ arg_lit_wf (find_arg (in_name ad) anodes) = true) ->
+  (forall ad d, In ad ads -> in_default ad = Some d -> lit_vars_typed sch leaf fuel vs (in_type ad) d = true /\ wf_lit d = true) ->
   forall k w, In (k, w) vals -> exists ad, In ad ads /\ in_name ad = k /\ has_type w (in_type ad) = true.
 Proof.
   induction ads as [|ad ads IH]; intros vals errs Hs Hvars Hdef k w Hin; cbn [coerce_arguments_aux] in Hs.
@@ -585,7 +612,8 @@ Proof.
     destruct o as [|v|er]; injection Hs as <- <-; auto.
     destruct Hin as [Heq|Hin]; [|auto]. injection Heq as <- <-.
     exists ad. split; [now left|]. split; [reflexivity|].
-    exact (delivered_argument_typed fuel ad floc _ vs v Ho (Hvars ad (or_introl eq_refl)) (fun d => Hdef ad d (or_introl eq_refl))).
+    exact (delivered_argument_typed fuel ad floc _ vs v Ho (proj1 (Hvars ad (or_introl eq_refl))) (proj2 (Hvars ad (or_introl eq_refl)))
+                                    (fun d => Hdef ad d (or_introl eq_refl))).
 Qed.
 
 End Sound.
